@@ -49,13 +49,34 @@ def run(ck, F):
     ck.check(R1, 'get_qualified(empty set)', ok,
              f'get_qualified with an empty qualifier set: {[(k, v if k == "throw" else "node") for st, k, v in empty] or "no such path"}',
              loc=f['loc'], fn=f['id'])
-    rets = [(st, v) for st, k, v in outs if k == 'return']
+    rets_all = [(st, v) for st, k, v in outs if k == 'return']
+    ISA = ('isa', 'ipr::Qualified', ('param', 1))
+    # (a) operand of unknown class that turns out to be Qualified: the request must be re-issued on the union of the
+    #     two sets over the operand's own main variant (and nothing else may be returned on that branch)
+    for i, (st, v) in enumerate([(st, v) for st, v in rets_all if (ISA, True) in st.conds]):
+        good = isinstance(v, tuple) and v[0] == 'call' and v[1] == GQ and len(v[3]) == 2
+        what = 'yields ' + contracts.render(v, st, {}) + ' instead of re-issuing the request on the merged set'
+        if good:
+            q, mv = strip_value(v[3][0]), v[3][1]
+            qs = [x for x in (q[2], q[3])] if q[0] == 'op' and q[1] == '|' else []
+            other = [x for x in qs if x != ('param', 0)]
+            okq = len(qs) == 2 and len(other) == 1 and other[0][0] == 'vcall' and other[0][2] == ('param', 1) \
+                and contracts.fn_simple(other[0][1]) in ('first', 'qualifiers')
+            okm = mv[0] == 'vcall' and mv[2] == ('param', 1) and contracts.fn_simple(mv[1]) in ('second', 'main_variant')
+            good = okq and okm and not any(e[0] == 'tree_insert' for e in st.effects)
+            what = f're-issues the request on ({contracts.render(q, st, {})}, {contracts.render(mv, st, {})}) instead of (q | T.qualifiers(), T.main_variant())'
+        ck.check(R2, f'operand that is Qualified/path{i}', good, 'get_qualified(q, T) for a Qualified T ' + what,
+                 loc=f['loc'], fn=f['id'])
+    if not any((ISA, True) in st.conds for st, v in rets_all):
+        ck.fail(R2, 'operand that is Qualified/path0', 'get_qualified never examines whether its operand is itself Qualified',
+                loc=f['loc'], fn=f['id'])
+    rets = [(st, v) for st, v in rets_all if (ISA, False) in st.conds]
     if len(rets) != 1:
-        raise AnalysisBroken(f'{GQ}: {len(rets)} returning paths for an operand of unknown category')
+        raise AnalysisBroken(f'{GQ}: {len(rets)} returning paths for an operand that is not Qualified')
     st1, v1 = rets[0]
     node1 = v1 if v1[0] == 'obj' else v1[1]
     a1 = contracts.observe(S, F, st1, node1, {node1[1]: 'R'}, accessor_filter=lambda n: n in ('qualifiers', 'main_variant'))
-    ck.check(R2, 'unqualified operand', a1 == {'qualifiers': 'P0', 'main_variant': 'P1'},
+    ck.check(R2, 'operand that is not Qualified', a1 == {'qualifiers': 'P0', 'main_variant': 'P1'},
              f'get_qualified(q, T) on an unqualified T reports {a1}', loc=f['loc'], fn=f['id'])
     # inductive step: qualify the node just obtained
     Q0 = ('param', 100)
@@ -64,6 +85,21 @@ def run(ck, F):
     except Unsupported as e:
         raise AnalysisBroken(f'{GQ} (second request): {e}')
     rets2 = [(st, v) for st, k, v in outs2 if k == 'return']
+    # a request re-issued by get_qualified on itself is summarised by the evaluator: follow it
+    for _round in range(3):
+        nxt, again = [], False
+        for st, v in rets2:
+            if isinstance(v, tuple) and v[0] == 'call' and v[1] == GQ:
+                again = True
+                try:
+                    nxt.extend((s3, v3) for s3, k3, v3 in S.run(f['id'], this=v[2], args=list(v[3]), state=st.fork()) if k3 == 'return')
+                except Unsupported as e:
+                    raise AnalysisBroken(f'{GQ} (re-issued request): {e}')
+            else:
+                nxt.append((st, v))
+        rets2 = nxt
+        if not again:
+            break
     if not rets2:
         raise AnalysisBroken('second request never returns')
     for i, (st2, v2) in enumerate(rets2):
